@@ -402,7 +402,8 @@ HARNESSES = [
     Harness("C03.update_psd_faults", update_psd_faults, functions=_F + [PrecipitateModel._updateParticleSizeDistribution, PBM.adjustSizeClassesEuler, PrecipitateModel._getdXdt],
             assumptions=_A + ["driving force >= 0 and precipitates present (the re-binning branch)"], stubs=["as C03.faults_multi"],
             opts={"ob_timeout": 30.0}, budget={"quick": 150.0, "thorough": 600.0},
-            params={"quick": [{"nph": 1, "ncls": 2, "nel": 2, "mode": "append"}, {"nph": 1, "ncls": 2, "nel": 2, "mode": "remesh"}, {"nph": 1, "ncls": 2, "nel": 2, "mode": "append", "recording": True}],
+            params={"quick": [{"nph": 1, "ncls": 2, "nel": 2, "mode": "append"}, {"nph": 1, "ncls": 2, "nel": 2, "mode": "remesh"}, {"nph": 1, "ncls": 2, "nel": 2, "mode": "append", "recording": True},
+                              {"nph": 2, "ncls": 2, "nel": 2, "mode": "append", "recording": True}],
                     "thorough": [{"nph": 2, "ncls": 2, "nel": 2, "mode": "append", "_shards": 8}, {"nph": 1, "ncls": 3, "nel": 2, "mode": "append"},
                                  {"nph": 1, "ncls": 3, "nel": 2, "mode": "remesh"}, {"nph": 2, "ncls": 2, "nel": 2, "mode": "append", "recording": True, "_shards": 4}]}),
             # (a fully symbolic grid -- mode "any" -- makes the interpolation of the tables onto a re-meshed grid branch on non-linear comparisons the solvers do not
